@@ -217,10 +217,37 @@ var c04Nesting = &vlib.Check{
 
 var c04NestingBoundary = &vlib.Check{Prop: "C04", Name: "nesting-boundary", Oracle: c04Oracle, Classify: c04Nesting.Classify, SampleOf: c04Nesting.SampleOf}
 
+// c04Families: the grammar families on their own count, so that their coverage does not depend on their share of the stream.
+var c04Families = &vlib.Check{
+	Prop: "C04", Name: "families", Quick: 8000, Thorough: 400000,
+	Oracle: c04Oracle, Classify: acceptedClassify,
+	Gen: func(t *rapid.T) *vlib.Case {
+		r := vlib.RapidRnd{T: t}
+		var b []byte
+		switch r.Intn(10) {
+		case 0, 1, 2:
+			b = genPathFamily(r)
+		case 3, 4:
+			b = genAllOfFamily(r)
+		case 5:
+			b = genOrFamily(r)
+		case 6:
+			b = genRPCFamily(r)
+		case 7:
+			b = genRegexFamily(r)
+		case 8:
+			b = genBodyFamily(r)
+		default:
+			b = genAliasFamily(r, false)
+		}
+		return &vlib.Case{Project: vlib.SingleFile(b)}
+	},
+}
+
 var c04Corpus = &vlib.Check{Prop: "C04", Name: "corpus", Oracle: c04Oracle, Classify: acceptedClassify}
 
 func init() {
-	vlib.Register(c04Stream, c04Corpus, c04Nesting, c04NestingBoundary, c05Stream, c05Corpus)
+	vlib.Register(c04Stream, c04Families, c04Corpus, c04Nesting, c04NestingBoundary, c05Stream, c05Corpus)
 }
 
 // genAllOfFamily: object types written with the rules an object literal may carry, and types inheriting from them through
@@ -684,6 +711,7 @@ func TestC04(t *testing.T) {
 		t.Run("corpus", func(t *testing.T) { c04Corpus.RunEnum(t, corpusEnum()) })
 	}
 	t.Run("stream", c04Stream.Run)
+	t.Run("families", c04Families.Run)
 	t.Run("nesting", c04Nesting.Run)
 	if vlib.Shard() == 0 {
 		t.Run("nesting-boundary", func(t *testing.T) {
